@@ -11,8 +11,16 @@ warm() {
   "$here/bin/mkoverlay" "$lc" "$work" && (cd "$here/mc" && go test -c -tags verif -vet=off -overlay "$work/overlay.json" -o /dev/null "./harness/$lc") || echo "setup: warm build of $lc failed"
   rm -rf "$work"
 }
-export -f warm; export here
+# harnesses whose free-running -race pass also runs in the quick tier: warm the -race build too
+warm_race() {
+  lc=$1
+  work="$here/.work/setup.race.$lc"; mkdir -p "$work"
+  "$here/bin/mkoverlay" "$lc" "$work" && (cd "$here/mc" && go test -c -race -tags verif -vet=off -overlay "$work/overlay.json" -o /dev/null "./harness/$lc") || echo "setup: warm -race build of $lc failed"
+  rm -rf "$work"
+}
+export -f warm warm_race; export here
 ls -d "$here"/mc/harness/c[0-9][0-9]/ | xargs -n1 basename | xargs -P 6 -I{} bash -c 'warm {}'
+for f in "$here"/mc/harness/c[0-9][0-9]/RACE_QUICK; do [ -e "$f" ] && basename "$(dirname "$f")"; done | xargs -r -P 2 -I{} bash -c 'warm_race {}'
 # native drivers and BPF objects are rebuilt by each check from the current tree; build once here to fail early
 mkdir -p "$here/.work/setup-native" && "$here/native/build.sh" "$here/.work/setup-native" /repo && "$here/native/kbuild.sh" "$here/.work/setup-native/k" /repo || echo "setup: native build failed"
 rm -rf "$here/.work/setup-native"
